@@ -15,6 +15,7 @@ import (
 	"github.com/nyaruka/gocommon/i18n"
 	"github.com/nyaruka/gocommon/urns"
 	"github.com/nyaruka/goflow/assets"
+	"github.com/nyaruka/goflow/flows/inspect"
 	"github.com/nyaruka/goflow/assets/static"
 	"github.com/nyaruka/goflow/envs"
 	"github.com/nyaruka/goflow/flows"
@@ -521,9 +522,75 @@ func runC20(c *Ctx) {
 			c.Model("inspect", "inspect "+spec, "keys "+encList(keys, ",")+" waiting "+encList(wex, ","), desc)
 		}
 	}
+	// ---- K: what inspection reads off one context path ----
+	c20ContextRefs(c)
 }
 
 // statically named references @top.key / @(… top.key …) in a template
+// K:ctxref — what inspection reads off one context path (inspect.ExtractFromTemplate on "@(a.b.c)") against the model's
+// classification over the regenerated table of field paths: every documented way to a contact's fields, other paths that
+// look like them, every case, keys that are also names of functions
+func c20ContextRefs(c *Ctx) {
+	r := c.Rng
+	heads := [][]string{{"fields"}, {"contact", "fields"}, {"run", "contact", "fields"}, {"parent", "fields"}, {"parent", "contact", "fields"}, {"child", "fields"},
+		{"child", "contact", "fields"}, {"globals"}, {"parent", "results"}, {"results"}, {"run", "results"}, {"child", "results"}, {"run", "fields"}, {"trigger", "contact", "fields"},
+		{"contact"}, {"parent"}, {"urns"}, {"parent", "run", "contact", "fields"}, {"x", "fields"}, {"upper", "fields"}, {"contact", "contact", "fields"}}
+	keys := []string{"age", "Gender", "title", "date", "number", "count", "org_name", "x", "fields", "results", "contact", "a1_b"}
+	vary := func(s string) string {
+		switch r.Intn(4) {
+		case 0:
+			return strings.ToUpper(s)
+		case 1:
+			return strings.ToUpper(s[:1]) + s[1:]
+		}
+		return s
+	}
+	for i := 0; i < c.N(1500, 40000); i++ {
+		var path []string
+		for _, h := range Pick(r, heads) {
+			path = append(path, vary(h))
+		}
+		for k := r.Intn(3); k > 0; k-- {
+			path = append(path, vary(Pick(r, keys)))
+		}
+		if r.Chance(5) {
+			path = path[:1]
+		}
+		tpl := "@(" + strings.Join(path, ".") + ")"
+		desc := map[string]any{"template": tpl}
+		exp := "none"
+		if c.Guard("K-ctxref", "panic:extract", desc, func() {
+			refs, parents := inspect.ExtractFromTemplate(tpl)
+			var out []string
+			for _, p := range parents {
+				out = append(out, "parentresult:"+hx(p))
+			}
+			for _, rf := range refs {
+				switch ref := rf.(type) {
+				case *assets.FieldReference:
+					out = append(out, "field:"+hx(ref.Key))
+				case *assets.GlobalReference:
+					out = append(out, "global:"+hx(ref.Key))
+				default:
+					out = append(out, "other")
+				}
+			}
+			sort.Strings(out)
+			if len(out) > 0 {
+				exp = strings.Join(out, ";")
+			}
+		}) {
+			continue
+		}
+		var enc []string
+		for _, p := range path {
+			enc = append(enc, hx(p))
+		}
+		c.Eval("ctxref|" + strings.ToLower(strings.Join(path[:len(path)-1], ".")) + "|" + strings.SplitN(exp, ":", 2)[0])
+		c.Model("ctxref", "ctxref "+strings.Join(enc, ","), exp, desc)
+	}
+}
+
 func findRefs(t, top string) []string {
 	var out []string
 	lower := strings.ToLower(t)
